@@ -7,18 +7,20 @@ _spec.loader.exec_module(C01)
 
 META = dict(
     title='The 2D cross-section interface equals the 3D interface along the section',
-    technique='CBMC code contracts (DFCC) on the mechanically extracted 2D entry point; the 3D evaluator and the coordinate-system virtuals are contract stubs that check the forwarded arguments; mapping formulas compared structurally (uninterpreted sqrt/atan2)',
+    technique='CBMC code contracts (DFCC) on the mechanically extracted 2D entry point; the 3D evaluator and the coordinate-system virtuals are contract stubs that check the forwarded arguments, and the stub contracts of the virtuals are enforced on both concrete coordinate systems; mapping formulas compared structurally (uninterpreted sqrt/atan2)',
     level_text='Proof for all arguments: a 2D query on a world without cross section is refused by an exception; otherwise the 3D '
                'interface is evaluated exactly once, with the same depth and request, at natural_to_cartesian of (o + x*u, z) (Cartesian) or '
                '(sqrt(x*x+z*z), o + atan2(z,x)*u) (spherical), and its answer is returned slot for slot with every velocity block replaced by '
-               '(u.(vx,vy), vz, 0).',
+               '(u.(vx,vy), vz, 0). The coordinate-system virtuals used on the way are proved on both implementations: Cartesian reports cartesian and '
+               'natural_to_cartesian / cartesian_to_natural return their argument bit for bit (so "height z" is the third coordinate unchanged); Spherical reports '
+               'spherical and forwards the argument once to Utilities::spherical_to_cartesian_coordinates / cartesian_to_spherical_coordinates (labelled cartesian) and returns that answer slot for slot.',
     level_note='Trusted: translator, shims, CBMC; o and u are the stored first cross-section point and direction; World::parse_entries is under contract for: '
                'dim = 2 exactly when a cross section is declared, exactly two points (else exception), points scaled by pi/180 in spherical worlds, '
                'u = (c0-c1)*(-1/sqrt(|c0-c1|^2)) as an expression tree (that this has unit length is a real-number fact not decided here). '
                'The velocity projection is applied in spherical worlds as well, as the code does; the statement only speaks about Cartesian ones.',
-    scope='World::properties(array<double,2>, depth, properties); World::parse_entries (cross section, dim)',
-    not_covered=['unit length of the direction as a real-number fact', 'natural_to_cartesian_coordinates itself (C19 covers the conversion formulas)'],
-    enforced_elsewhere={'World_properties_3d': 'C01/props3d'},
+    scope='World::properties(array<double,2>, depth, properties); World::parse_entries (cross section, dim); CoordinateSystems::Cartesian / Spherical :: natural_coordinate_system, natural_to_cartesian_coordinates, cartesian_to_natural_coordinates',
+    not_covered=['unit length of the direction as a real-number fact', 'the conversion formulas inside Utilities::spherical_to_cartesian_coordinates / cartesian_to_spherical_coordinates (under contract in C19)', 'virtual dispatch itself (which implementation the unique_ptr holds) is C++ semantics, trusted'],
+    enforced_elsewhere={'World_properties_3d': 'C01/props3d', 'Utilities_spherical_to_cartesian_coordinates': 'C19/spherical_to_cartesian', 'Utilities_cartesian_to_spherical_coordinates': 'C19/cartesian_to_spherical'},
 )
 _u = copy.deepcopy([u for u in C01.UNITS if u['name'] == 'props2d'][0])
 _u['name'] = 'props2d_section'
@@ -35,6 +37,28 @@ _wp = copy.deepcopy(C15.WORLD_PARSE)
 _wp['name'] = 'world_parse_section'
 
 UNITS = [_u, _wp]
+
+# the coordinate-system virtuals the 2D entry point calls (stubs in c01_2d.c) enforced on every concrete implementation
+def _cs(name, cls, meth, stub=None, canaries=None):
+    fn = 'CoordinateSystems_%s_%s' % (cls, meth)
+    u = dict(name=name, enforce=fn, contracts='c09_coordsys.c', harness='h_' + name,
+             targets=[dict(tu='source/world_builder/coordinate_systems/%s.cc' % cls.lower(),
+                           qual='WorldBuilder::CoordinateSystems::%s::%s' % (cls, meth))],
+             outline_fp=True, unwind_complete=4, defines={'WB_VEC_CAP': 2}, expect_fail=['REACHABILITY-GUARD'])
+    if stub:
+        u.update(stub=[stub], nothrow=[stub], replace=[stub])
+    if canaries:
+        u['canaries'] = canaries
+    return u
+UNITS += [
+    _cs('cartesian_kind', 'Cartesian', 'natural_coordinate_system', canaries=[(r'return E_CoordinateSystem_cartesian;', 'return E_CoordinateSystem_spherical;', 'Cartesian system reports spherical')]),
+    _cs('spherical_kind', 'Spherical', 'natural_coordinate_system'),
+    _cs('cartesian_n2c', 'Cartesian', 'natural_to_cartesian_coordinates'),
+    _cs('cartesian_c2n', 'Cartesian', 'cartesian_to_natural_coordinates'),
+    _cs('spherical_n2c', 'Spherical', 'natural_to_cartesian_coordinates', 'Utilities_spherical_to_cartesian_coordinates'),
+    _cs('spherical_c2n', 'Spherical', 'cartesian_to_natural_coordinates', 'Utilities_cartesian_to_spherical_coordinates',
+        canaries=[(r'\(position, E_CoordinateSystem_cartesian\)', '(position, E_CoordinateSystem_spherical)', 'point handed to the conversion labelled spherical')]),
+]
 
 WORLD = C01.WORLD
 
